@@ -99,6 +99,9 @@ impl tower::Service<Request<Bytes>> for NodeService {
                 digest(req.body()),
                 h.len()
             ));
+            if h.contains_key("panic") {
+                panic!("handler panic requested by the scenario");
+            }
             if let Some(ms) = h.get("sleep-ms").and_then(|s| s.parse::<u64>().ok()) {
                 tokio::time::sleep(Duration::from_millis(ms)).await;
             }
@@ -224,6 +227,12 @@ impl World {
             b = b.outbound_request_layer(tower::layer::util::Identity::new());
         }
         // routes=<hex>,<hex>..: the node serves a Router with these routes (every one handled by the node service)
+        // gate=<k>: the whole service sits behind tower's ConcurrencyLimit (back-pressure through poll_ready: at most k
+        // requests are handed to the service at a time, the others wait for readiness)
+        if let Some(k) = a.get("gate").and_then(|v| v.parse::<usize>().ok()) {
+            let gated = tower::limit::ConcurrencyLimit::new(svc, k);
+            return self.finish_start(idx, b.start(gated), stats, key);
+        }
         let started = match a.get("routes") {
             Some(list) => {
                 let mut r = anemo::Router::new();
@@ -235,6 +244,10 @@ impl World {
             }
             None => b.start(svc),
         };
+        self.finish_start(idx, started, stats, key)
+    }
+
+    fn finish_start(&mut self, idx: usize, started: anyhow::Result<Network>, stats: Arc<NodeStats>, key: [u8; 32]) -> String {
         match started {
             Ok(net) => {
                 let peer_id = net.peer_id();
@@ -343,7 +356,7 @@ async fn net_cmd(
             let mut req = Request::new(Bytes::from(body_pattern(size, id.len() as u8 + j as u8)))
                 .with_route(a.get("route").map(|r| String::from_utf8(unhex(r)).unwrap()).unwrap_or("/echo".into()))
                 .with_header("id", id);
-            for k in ["sleep-ms", "resp-size", "resp-hdr-size", "status"] {
+            for k in ["sleep-ms", "resp-size", "resp-hdr-size", "status", "panic"] {
                 if let Some(v) = a.get(k) {
                     req.headers_mut().insert(k.to_string(), v.to_string());
                 }
@@ -423,7 +436,7 @@ async fn net_cmd(
         "shutdown" => match net.shutdown().await {
             // what the network reports at the very moment a shutdown call returns successfully
             Ok(()) => format!("ok closed={} peers={} t={}", net.is_closed() as u8, net.peers().len(), el()),
-            Err(_) => format!("err t={}", el()),
+            Err(_) => format!("err closed={} peers={} t={}", net.is_closed() as u8, net.peers().len(), el()),
         },
         other => format!("bad-cmd {other}"),
     }
